@@ -27,6 +27,7 @@ type undoEntry struct {
 
 // Finding is a reachable assertion failure or panic together with a model.
 type Finding struct {
+	Regions map[string]bool // harness-declared regions the model lies in
 	Kind   string // "assert" | "panic"
 	ID     string // assertion id or panic site
 	Msg    string
@@ -84,6 +85,7 @@ type VM struct {
 	pathNotes map[string]string
 	Extra     map[string]interface{} // per-check hooks (stubs, callee replacement)
 	hasAbort  bool
+	regions   map[string]*smt.Term
 
 	intrinsics map[string]Intrinsic
 	Verbose    bool
